@@ -57,17 +57,18 @@ DESIGN = {"module": "I_CT", "cfg": "MC_I_CT_quick.cfg", "thorough_cfg": "MC_I_CT
 P = {
     "specdir": "bpf_ct",
     "design": [DESIGN],
-    "gen": {"module": "Gen_CT", "cfg": "Gen_CT_cover.cfg", "thorough_cfg": "Gen_CT_cover.cfg", "workers": 1, "heap": "4g",
-            "max": 1500, "thorough_max": 12000, "timeout": 300},
+    "gen": {"module": "Gen_CT", "cfg": "Gen_CT_cover.cfg", "thorough_cfg": "Gen_CT_cover3.cfg", "workers": 1, "heap": "4g",
+            "max": 9000, "thorough_max": 120000, "timeout": 300, "thorough_timeout": 1500},
     "driver": {"cmd": "ctscan"},
-    "n_random": (400, 6000),
+    "n_random": (500, 8000),
     "trace": {"module": "T_CT", "cfg": "T_CT.cfg", "heap": "4g", "timeout": 600},
     "chunk": 300000,
     "signature": signature,
     "nontrivial": nontrivial,
-    "rule": "behaviours = one per transition of I_CT's state graph (1 plain + 1 NAT pair, every interleaving of the scanner's "
-            "gated map operations, the cleaner's steps, packets and ticks; TLC VIEW + ACTION_CONSTRAINT), thinned by seed in "
-            "the quick tier; TLC -simulate walks over 2 plain + 1 NAT pair; seeded random schedules over 1-6 plain entries "
+    "rule": "behaviours = one per transition of I_CT's state graph refined by the iteration order of the current scan (quick: "
+            "1 NAT pair incl. orphan forward / reverse-only starts, thinned by seed; thorough: 1 plain + 1 NAT pair; every "
+            "interleaving of the scanner's gated map operations, the cleaner's steps, packets and ticks; TLC VIEW + "
+            "ACTION_CONSTRAINT); TLC -simulate walks over 2 plain + 1 NAT pair; seeded random schedules over 1-6 plain entries "
             "and 0-3 NAT pairs (15 protocol/TCP-state classes, default and small timeouts, ages placed around the timeout "
             "boundary, orphan forward/reverse entries, state-changing packets); every trace ends with the environment frozen "
             "and two complete scans. A trace is non-trivial if the cleanup machinery removed at least one existing entry; "
